@@ -14,7 +14,12 @@
 //!   feature := pep_ix u32(isotope_error) peptide_len charge u32(expmass) u32(calcmass) u32(delta_mass)
 //!              u32(average_ppm) u64(hyperscore) matched_peaks longest_b longest_y u32(longest_y_pct)
 //!              u32(matched_intensity_pct) scored_candidates u64(poisson) u32(ms2_intensity)
+//!              rank u64(delta_next) u64(delta_best) missed_cleavages
 //!              opt([m (kind charge ordinal u32(intensity) u32(mz_calculated) u32(mz_experimental))…])
+//!
+//!   scoremany report_psms wide_window opt(tol isolation_window) <arguments of score1>  ->  as score1, but through a
+//!          Scorer with the given report_psms / wide_window: only report_psms PSMs come back and trim_hits really
+//!          truncates (databases of 49..300 peptides that all match inside one precursor window)
 //!
 //! kind: 0=a 1=b 2=c 3=x 4=y 5=z. The database contains exactly the given peptides
 //! (`Parameters::build_from_peptides`), the Scorer reports every candidate (`report_psms` = 1000, no chimera,
@@ -30,7 +35,7 @@ use sage_core::scoring::{ScoreType, Scorer};
 use sage_core::spectrum::{select_most_intense_peak, Peak, Precursor, ProcessedSpectrum};
 use std::sync::Arc;
 
-pub const OPS: &[&str] = &["c04select", "score1"];
+pub const OPS: &[&str] = &["c04select", "score1", "scoremany"];
 pub const INFO: Info = Info {
     rule: "score1: a database of 1-3 synthetic peptides (length 2..24 over VALID_AA, optional residue / terminal \
            modifications, consistent mass, ascending mass), ion kinds mostly [b,y] but also single-sided, c/z, a/x, \
@@ -47,10 +52,10 @@ pub const INFO: Info = Info {
            peaks; directed: searched-vs-annotated charge (override with ranges containing / not containing the annotation, un-annotated 1..4, wide precursor tolerance so every searched charge reports its own PSM), empty spectrum, a dense spectrum (peak every ~0.37 Da), the complete PEPTIDEK ladder \
            (the repaired index-0 finding), TIC = sum / arbitrary / 0. A separate stream tagged neg-intensity feeds \
            negative and NaN intensities (outside the property: compared with the model only). \
-           c04select: sorted peak lists of 0..14 peaks on a coarse mass grid (many ties in mass and intensity), \
+           scoremany: the same through a Scorer with report_psms 1/5/40 on a database of 49..130 (quick) / 9..300 (thorough)            peptides that share a 4-residue prefix or suffix, all inside one wide precursor window (Da or ppm; annotated,            un-annotated 2..4, override 2..3 and wide_window variants; isotope ranges), the spectrum holding the shared            fragments, one full ladder and fragments of three other peptides: more than 50 / more than 2*report_psms            candidates with a match per sub-search, so trim_hits truncates and scored_candidates must still count all.            c04select: sorted peak lists of 0..14 peaks on a coarse mass grid (many ties in mass and intensity), \
            window centres on / between grid points, ppm and Da tolerances incl. empty and inverted windows, optional \
            offset; exhaustive small scope in the thorough tier (all intensity assignments over {0,1,2} for <= 5 \
-           peaks x all windows). non-trivial = score1: the spectrum contains at least one ladder peak placed \
+           peaks x all windows). non-trivial = scoremany: more than 50 peptides; score1: the spectrum contains at least one ladder peak placed \
            inside the tolerance and the pattern is not `all at every charge`; c04select: at least one peak inside \
            and one outside the window; distinct by request line",
     serial: false,
@@ -138,7 +143,8 @@ impl Pep {
             nterm: self.nterm,
             cterm: self.cterm,
             monoisotopic: self.mono,
-            missed_cleavages: 0,
+            // number of K/R before the last residue (the driver recomputes it from the sequence)
+            missed_cleavages: self.seq[..self.seq.len().saturating_sub(1)].iter().filter(|&&b| b == b'K' || b == b'R').count().min(255) as u8,
             semi_enzymatic: false,
             position: Position::Internal,
             proteins: vec![Arc::from("P1")],
@@ -688,8 +694,141 @@ fn gen_select(rng: &mut Rng, tier: Tier, emit: &mut dyn FnMut(Case)) {
     }
 }
 
+
+/// many candidates inside one precursor window: every peptide shares a 4-residue prefix (b ions) or suffix (y ions)
+/// with all others, the spectrum holds the shared fragments, one peptide's full ladder and fragments of a few others
+fn many_case(rng: &mut Rng, n_pep: usize, rp: usize, variant: usize) -> (String, Vec<&'static str>) {
+    let mut tags: Vec<&'static str> = vec!["scoremany"];
+    let share_n = rng.chance(1, 2);
+    let shared: &[u8] = if share_n { b"LGEY" } else { b"FQNK" };
+    let mut peps: Vec<Pep> = (0..n_pep)
+        .map(|_| {
+            let tail: Vec<u8> = (0..3 + rng.below(6)).map(|_| *rng.pick(&VALID_AA)).collect();
+            let seq: Vec<u8> = if share_n { [shared, &tail[..]].concat() } else { [&tail[..], shared].concat() };
+            Pep::plain(&seq)
+        })
+        .collect();
+    peps.sort_by(|a, b| a.mono.total_cmp(&b.mono));
+    let target = rng.below(peps.len());
+    let kinds: Vec<usize> = rng.pick(&[&[1usize, 4][..], &[1, 4], &[4, 1], &[0, 1, 4]]).to_vec();
+    let min_ion_index = *rng.pick(&[0usize, 2, 2]);
+    let ftol = *rng.pick(&[Tol::Ppm(-10.0, 10.0), Tol::Da(-0.02, 0.02)]);
+    // variant: 0 annotated charge, 1 un-annotated (2..=4), 2 annotated + override (2..=3), 3 wide_window (2..=3)
+    let (annotated, override_z, pc_range, wide) = match variant % 4 {
+        0 => (true, false, (2u8, 4u8), false),
+        1 => {
+            tags.push("unannotated-charge");
+            (false, false, (2, 4), false)
+        }
+        2 => {
+            tags.push("override-charge");
+            (true, true, (2, 3), false)
+        }
+        _ => {
+            tags.push("wide-window");
+            (rng.chance(1, 2), false, (2, 3), true)
+        }
+    };
+    let iso = *rng.pick(&[(0i8, 0i8), (0, 0), (-1, 3), (0, 1), (1, 1)]);
+    if iso.0 != iso.1 {
+        tags.push("isotope-range");
+    }
+    let z = 2 + rng.below(2) as u8;
+    let tp = peps[target].clone();
+    let prec_mz = tp.mono / z as f32 + PROTON;
+    // everything inside the precursor window of every searched charge / isotope
+    let ptol = if rng.chance(1, 2) { Tol::Da(-4000.0, 4000.0) } else { Tol::Ppm(-900000.0, 3000000.0) };
+    let iw = if wide { Some(Tol::Da(-1500.0, 1500.0)) } else { None };
+    let mut peaks: Vec<(f32, f32)> = vec![];
+    let add_ladder = |peaks: &mut Vec<(f32, f32)>, p: &Pep, rng: &mut Rng, rate: u32| {
+        let pt = p.peptide();
+        for k in [1usize, 4] {
+            for ion in IonSeries::new(&pt, KINDS[k]) {
+                if rng.chance(rate, 100) {
+                    peaks.push((ion.monoisotopic_mass, 1.0 + (rng.below(40) as f32) * 0.5));
+                }
+            }
+        }
+    };
+    // the shared fragments: b1..b4 of the prefix / y1..y4 of the suffix (all peptides have them)
+    {
+        let pt = tp.peptide();
+        let k = if share_n { 1 } else { 4 };
+        let ions: Vec<f32> = IonSeries::new(&pt, KINDS[k]).map(|i| i.monoisotopic_mass).collect();
+        let n = ions.len();
+        for j in 0..4usize.min(n) {
+            // y ions are enumerated from the longest: the suffix ions are the LAST four
+            let ion = if share_n { ions[j] } else { ions[n - 1 - j] };
+            peaks.push((ion, 5.0 + j as f32));
+        }
+    }
+    add_ladder(&mut peaks, &tp, rng, 90);
+    for _ in 0..3 {
+        let other = peps[rng.below(peps.len())].clone();
+        add_ladder(&mut peaks, &other, rng, 40);
+    }
+    peaks.sort_by(|a, b| a.0.total_cmp(&b.0));
+    let tic = peaks.iter().map(|p| p.1).sum::<f32>();
+    let req = Req {
+        kinds,
+        min_ion_index,
+        bucket: *rng.pick(&[3usize, 8192]),
+        peps,
+        ftol,
+        ptol,
+        mfc: *rng.pick(&[None, Some(1u8), Some(2)]),
+        iso,
+        openms: rng.chance(1, 6),
+        annotate: rng.chance(1, 4),
+        min_matched: *rng.pick(&[0u16, 0, 2]),
+        prec_mz,
+        z,
+        annotated,
+        override_z,
+        pc_range,
+        tic,
+        peaks,
+    };
+    let mut o = Out::new();
+    o.raw("scoremany").n(rp).b(wide);
+    match iw {
+        None => {
+            o.n(0);
+        }
+        Some(t) => {
+            o.n(1);
+            t.write(&mut o);
+        }
+    }
+    let line = req.line();
+    o.raw(&line["score1 ".len()..]);
+    (o.finish(), tags)
+}
+
+fn gen_many(rng: &mut Rng, tier: Tier, emit: &mut dyn FnMut(Case)) {
+    // sizes just below / at / above trim_hits' 50 and 2 * report_psms (2, 10, 80)
+    let sizes: &[usize] = if tier == Tier::Quick { &[49, 50, 51, 64, 79, 80, 81, 130] } else { &[9, 10, 11, 49, 50, 51, 52, 64, 79, 80, 81, 100, 130, 200, 300] };
+    let reps = if tier == Tier::Quick { 1 } else { 40 };
+    let mut v = 0usize;
+    for _ in 0..reps {
+        for &rp in &[1usize, 5, 40] {
+            for &n in sizes {
+                let (line, tags) = many_case(rng, n, rp, v);
+                v += 1;
+                let mut c = Case::new(line).nontrivial(n > 50);
+                for t in tags {
+                    c = c.tag(t);
+                }
+                c = c.tag(if n > 50 { "many-above-50" } else { "many-at-most-50" });
+                emit(c);
+            }
+        }
+    }
+}
+
 pub fn gen(rng: &mut Rng, tier: Tier, emit: &mut dyn FnMut(Case)) {
     gen_select(rng, tier, emit);
+    gen_many(rng, tier, emit);
 
     // ---- directed score1 cases ----
     // the repaired finding: PEPTIDEK with its complete b/y ladder (longest_b = longest_y = 7)
@@ -839,7 +978,15 @@ pub fn exec(op: &str, t: &mut Toks) -> Option<String> {
             }
             Some(o.finish())
         }
-        "score1" => {
+        "score1" | "scoremany" => {
+            let (report_psms, wide_window, isolation_window) = if op == "scoremany" {
+                let rp = t.usize()?;
+                let w = t.bool()?;
+                let iw = t.opt(Tol::read)?;
+                (rp, w, iw)
+            } else {
+                (1000, false, None)
+            };
             let kinds = t.list(|t| t.usize())?;
             let min_ion_index = t.usize()?;
             let bucket_size = t.usize()?;
@@ -901,8 +1048,8 @@ pub fn exec(op: &str, t: &mut Toks) -> Option<String> {
                 override_precursor_charge: override_z,
                 max_fragment_charge: mfc,
                 chimera: false,
-                report_psms: 1000,
-                wide_window: false,
+                report_psms,
+                wide_window,
                 annotate_matches: annotate,
                 score_type: if openms { ScoreType::OpenMSHyperScore } else { ScoreType::SageHyperScore },
             };
@@ -917,7 +1064,7 @@ pub fn exec(op: &str, t: &mut Toks) -> Option<String> {
                     intensity: None,
                     charge: z,
                     spectrum_ref: None,
-                    isolation_window: None,
+                    isolation_window,
                     inverse_ion_mobility: None,
                 }],
                 peaks,
@@ -935,6 +1082,7 @@ pub fn exec(op: &str, t: &mut Toks) -> Option<String> {
                 o.n(canon64(f.hyperscore)).n(f.matched_peaks).n(f.longest_b).n(f.longest_y);
                 o.n(canon32(f.longest_y_pct)).n(canon32(f.matched_intensity_pct)).n(f.scored_candidates);
                 o.n(canon64(f.poisson)).n(canon32(f.ms2_intensity));
+                o.n(f.rank).n(canon64(f.delta_next)).n(canon64(f.delta_best)).n(f.missed_cleavages);
                 match &f.fragments {
                     None => {
                         o.n(0);
